@@ -100,7 +100,7 @@ impl Scenario for TxSim {
         }
     }
     fn rule(&self) -> &'static str {
-        "sender alone: seeded histories of encap/encap_ext/encap_frag calls of every succeeding and failing class (sizes 0..=70000, protocol types 0..=0xFFFF, zero/explicit re-use labels, wild contexts), configuration calls and resets; non-trivial = C09: >=1 failing call followed by the twin battery; C11: >=1 continuation call checked; C15: >=2 start/complete packets emitted; C18: >=1 preview compared; C13: constructor sweep chunk; distinct = distinct program hashes"
+        "sender alone: seeded histories of encap/encap_ext/encap_frag calls of every succeeding and failing class (sizes 0..=70000, protocol types 0..=0xFFFF, zero/explicit re-use labels, wild contexts), configuration calls and resets; non-trivial = C09: >=1 failing call followed by the twin battery; C11: >=1 continuation call checked; C15: >=2 start/complete packets emitted; C18: >=1 preview compared; C13: constructor sweep chunk; distinct = distinct program hashes; for C15 the first 4 x 15^4 (quick) / 8 x 15^5 (thorough) runs enumerate every sequence of 4 / 5 calls over a 15-letter alphabet from 4 / 8 starting configurations (counter enumerated_call_sequences)"
     }
     fn expected_probes(&self, target: &str) -> &'static [&'static str] {
         match target {
@@ -148,6 +148,7 @@ impl Scenario for TxSim {
         for (opi, op) in p.ops.iter().enumerate() {
             log.s(op.name);
             match op.name {
+                "mark_enumerated" => st.inc("enumerated_call_sequences"),
                 "enc" => {
                     let len = (op.get_u("len") as usize).min(70_000);
                     let pdu = pdu_bytes(len, op.get_u("seed"));
@@ -513,6 +514,46 @@ pub mod gen {
                 let per = (65536 + chunks - 1) / chunks;
                 ops.push(Op::new("ctor").u("a", idx * per).u("n", per));
                 let _ = ExtTable::default();
+            }
+            "C15" if idx < (if tier == Tier::Quick { 4 * 15u64.pow(4) } else { 8 * 15u64.pow(5) }) => {
+                // bounded-exhaustive part ("exhaustively to a bounded depth"): every sequence of d calls (d = 4 quick,
+                // 5 thorough) over a 15-letter alphabet - complete packets with the six labels of the property's
+                // alphabet, first fragments with a 6- and a 3-byte label, encap_ext, a refused call, label reset,
+                // disable, enable, enable with a maximum of 1 and of 2 - from 8 starting configurations (re-use on /
+                // off / max 1 / max 2, with or without a packet of the favourite label already sent)
+                let depth: u32 = if tier == Tier::Quick { 4 } else { 5 };
+                let per = 15u64.pow(depth);
+                // (quick: four of the eight starting configurations)
+                let start = if tier == Tier::Quick { [0u64, 2, 5, 7][(idx / per) as usize % 4] } else { idx / per };
+                let mut code = idx % per;
+                match start % 4 {
+                    0 => {}
+                    1 => ops.push(Op::new("disable")),
+                    2 => ops.push(Op::new("max").u("n", 1)),
+                    _ => ops.push(Op::new("max").u("n", 2)),
+                }
+                if start / 4 == 1 {
+                    ops.push(enc(3, 1, 0x0800, &fg::L6A, 1, 64, None));
+                }
+                let e = [(0x0100u16, vec![])];
+                for i in 0..depth {
+                    let l = code % 15;
+                    code /= 15;
+                    let fid = 10 + i as u8;
+                    ops.push(match l {
+                        0..=5 => enc(3, 7 + i as u64, 0x0800, &ALPHABET[l as usize], fid, 64, None),
+                        6 => enc(40, 7 + i as u64, 0x0800, &fg::L6A, fid, 20, None),
+                        7 => enc(40, 7 + i as u64, 0x0800, &fg::L3A, fid, 20, None),
+                        8 => enc(3, 7 + i as u64, 0x0800, &fg::L6A, fid, 64, Some(&e)),
+                        9 => enc(3, 7 + i as u64, 0x0800, &Lab::L6([0; 6]), fid, 64, None),
+                        10 => Op::new("reset"),
+                        11 => Op::new("disable"),
+                        12 => Op::new("enable"),
+                        13 => Op::new("max").u("n", 1),
+                        _ => Op::new("max").u("n", 2),
+                    });
+                }
+                ops.push(Op::new("mark_enumerated"));
             }
             "C15" | "C09" | "C06" | "C18" if idx % 40 == 3 => {
                 // counter run: a maximum N, then N+300 consecutive sends of one label with nothing in between
